@@ -343,6 +343,27 @@ def boot (n : Node) (d : Db) : Node :=
   let n2 := { n1 with live := d, dbFile := d, fp := false, fullNeeded := true }
   snapshot n2 1
 
+/-! #### the boot guard
+`ReadFrom` bypasses the log: the booted database reaches other nodes only by snapshot
+transfer, and a member that is caught up never gets one. So `ReadFrom` refuses unless the raft
+configuration (`s.Nodes()`: EVERY server, voters and non-voters) has exactly one server. -/
+
+/-- the guard as in the source: what is counted, the test, the error -/
+def bootGuardCode : List String := ["s.Nodes", "len(nodes) != 1", "ErrNotSingleNode"]
+
+/-- number of servers in the configuration (`[]` = the bootstrap configuration: this node only) -/
+def clusterSize (n : Node) : Nat := if n.config.isEmpty then 1 else n.config.length
+
+def bootAllowed (n : Node) : Bool := clusterSize n == 1
+
+/-- `ReadFrom` as the caller sees it: `true` = refused (`ErrNotSingleNode`), nothing changed -/
+def bootR (n : Node) (d : Db) : Node × Bool :=
+  if bootAllowed n then (boot n d, false) else (n, true)
+
+/-- another server is added to the configuration (a voter or a read-only node joins) -/
+def attach (n : Node) (self p : Peer) : Node :=
+  { n with config := (if n.config.isEmpty then [self] else n.config) ++ [p] }
+
 /-! ### crash, close, open -/
 
 /-- process crash: volatile state is gone; durable state is what the completed
@@ -427,7 +448,7 @@ statements: `p:k:v` put, `i:k:v` ins, `d:k` del, `a:k:x` add, `b` bad, `t:k=v;k=
 `reset`                         → `ok`   (fresh node, empty kv table)
 `save` / `restore`              → `ok`   remember / return to a state (crash-image exploration)
 `exec <0|1> <stmt,stmt,…>`      → `ok`
-`load <k=v;k=v|->` / `loadbad`  → `ok|rejected` (what the client gets) ; `boot <rows>` → `ok`
+`load <k=v;k=v|->` / `loadbad`  → `ok|rejected` (what the client gets) ; `boot <rows>` → `ok|refused` (refused unless the configuration has one server)
 `join`                          → the table of a node that joins now (`joinFrom`)
 `loadiofail <rows>`             → `rejected`  this node's scratch-file I/O fails applying the LOAD
 `snap <trailing>`               → `ok`   complete snapshot
@@ -509,7 +530,7 @@ def step (d : DState) (line : String) : DState × String :=
   | ["join"] => if n.up then (d, showDb (joinFrom n).live) else (d, "bad-op")
   | ["boot", rows] =>
     match parseRows rows with
-    | some r => if n.up then upd (boot n r) else (d, "bad-op")
+    | some r => if n.up then ({ d with n := (bootR n r).1 }, if (bootR n r).2 then "refused" else "ok") else (d, "bad-op")
     | none => (d, "bad-op")
   | ["snap", t] =>
     match t.toNat? with
